@@ -1347,8 +1347,12 @@ out:
 	}
 	if (!c)
 	{
-		/* We hit an eof char (0) */
-		if (state != json_tokener_state_finish && saved_state != json_tokener_state_finish)
+		/* We hit an eof char (0).  That is only fine at the top level: deeper down
+		 * (e.g. inside an unterminated comment that follows a nested value) a
+		 * completed value is not the document.
+		 */
+		if (tok->depth != 0 ||
+		    (state != json_tokener_state_finish && saved_state != json_tokener_state_finish))
 			tok->err = json_tokener_error_parse_eof;
 	}
 
